@@ -24,6 +24,7 @@ EXPLANATION += ' Added after the seeded-change rounds: ' + 'D1 also: after a buc
 EXPLANATION += ' Added in the third session (round-3 seeds and the findings they led to): ' + 'D3 also: the element lock is waited for outside the bucket lock scope (anchored on the acquisition) and, class-wide, no blocking element-lock acquisition happens while a bucket lock is held.'
 EXPLANATION += ' Added in the fifth seeding round: ' + 'D4 also: every operation that receives an accessor releases it before lookup() acquires an element lock through it (in the operation or in the helper the accessor is forwarded to; sibling agreement over all find / insert / emplace overloads) - otherwise the element the accessor held stays locked for ever.'
 EXPLANATION += ' D5 also: between insert_new_node and the return (within the attempt that linked the node) no call that may allocate stands outside a try block - the thread that inserted gets to report it.'
+EXPLANATION += ' Added in the sixth (partial) seeding round: ' + 'D2 also: every value stored into an accessor\'s my_hash is a whole hash code (functor result, parameter, another accessor\'s my_hash, through locals) - never the result of masking or other arithmetic: erase(accessor) recomputes the bucket under the mask in force later.'
 ASSUMPTIONS = ['instantiations: concurrent_hash_map<int,int> and <string,string> (explicit instantiation)', 'rw scoped lock model']
 ND = ['linearizability of the map operations', 'no loss across lazy rehash for all hash functions / growth schedules']
 
@@ -36,6 +37,7 @@ def run(facts, rep):
     d5_success(facts, rep)
     d4_accessor_released_before_reuse(facts, rep)
     d5_no_failure_after_the_insertion(facts, rep)
+    d2_accessor_keeps_the_full_hash(facts, rep)
 
 
 def witnesses(rep, tier):
@@ -480,3 +482,44 @@ def d5_no_failure_after_the_insertion(facts, rep):
                key_extra='post-insert-throw')
     if n < 1:
         raise AnalysisBroken('concurrent_hash_map::lookup<insert> not instantiated')
+
+
+def d2_accessor_keeps_the_full_hash(facts, rep):
+    """erase(accessor) (exclude) finds the element's bucket again from the hash code the accessor remembered - under the mask in
+    force at THAT time.  The table may have grown since the accessor was obtained and lazy rehashing may have moved the node into
+    the bucket selected by a hash bit that did not count before; only the full hash code finds it.  A remembered value that was
+    already reduced by the mask of the lookup makes exclude() search the old parent bucket, find nothing and report "someone else
+    erased it" - of two concurrent erases of a present key none returns true and the key stays.  Rule: every value stored into an
+    accessor's my_hash is a whole hash code - the result of the hash functor, a parameter, or another accessor's my_hash, directly
+    or through locals - never the result of arithmetic (masking, shifting, modulo)."""
+    n = 0
+    for fn in sorted(facts.fns.values(), key=lambda f: f.q):
+        if not fn.p.startswith(CHM):
+            continue
+        defs = None
+        for pos, s, l, r in assignments(fn):
+            ln_ = fn.n(fn.strip(l))
+            if ln_.get('k') != 'member' or ln_.get('n') != 'my_hash':
+                continue
+            defs = defs or Defs(fn)
+            bad = []
+
+            def whole(x, depth=0):
+                x = fn.strip(x)
+                nd = fn.n(x)
+                k = nd.get('k')
+                if k in ('binop', 'unop'):
+                    bad.append('`%s` at line %s' % (fn.path(x), nd.get('ln')))
+                    return
+                if k == 'var' and depth < 4 and 'param' not in nd:
+                    for d_, v in (defs.values(x) or []):
+                        if v is not None:
+                            whole(v, depth + 1)
+            whole(r)
+            n += 1
+            rep.ob('D2', 'K14', fn, 'the accessor remembers the whole hash code of its element', not bad,
+                   'my_hash is given %s: after the table has grown exclude() computes the bucket from a value that lacks the newly significant '
+                   'bits, misses the (lazily rehashed) node and returns false - no erase of the present key returns true' % ', '.join(bad),
+                   ln=fn.n(s).get('ln'), key_extra='acc-hash|' + fn.p.split('::')[-1])
+    if n < 1:
+        raise AnalysisBroken('concurrent_hash_map: no assignment to an accessor\'s my_hash found')
